@@ -26,8 +26,25 @@ def main():
     except subprocess.TimeoutExpired as e:
         print(f'TIMEOUT ({a.pid}): {e}', file=sys.stderr)
         return 2
-    except Exception:
+    except Exception as e:
+        tb = traceback.extract_tb(e.__traceback__)
         traceback.print_exc()
+        # A translator (translate/*.py) that cannot read the CURRENT source is a broken tie, not an infrastructure failure: the
+        # theorems that rest on the regenerated file are no longer shown to speak about this code.  (On the unchanged tree the
+        # translators do not fail: setup and every quick run would show it.)
+        frames = [f for f in tb if os.sep + 'translate' + os.sep in f.filename]
+        if frames and not a.replay:
+            try:
+                from common import Check
+                chk = Check(a.pid, a.tier)
+                f = frames[-1]
+                chk.coverage.update({'obligations': 1, 'discharged': 0, 'evaluations': 0})
+                chk.violation(f'the translator {os.path.basename(f.filename)} ({f.name}, line {f.lineno}) cannot read the current source: '
+                              f'{type(e).__name__}: {e}; the theorems resting on the regenerated file no longer apply to this code',
+                              {'broken_obligations': [f'translator {os.path.basename(f.filename)}:{f.name}'], 'traceback': traceback.format_exc()[-3000:]}, False)
+                return chk.finish()
+            except Exception:
+                traceback.print_exc()
         print(f'INFRASTRUCTURE FAILURE ({a.pid}): harness crashed', file=sys.stderr)
         return 2
 
